@@ -276,6 +276,50 @@ def check_case(case, rec):
             if cgr.center_atoms or '>' in cs:
                 rec.fail('cgr-identity', f'{label}: identical sides but centre {cgr.center_atoms} / string {cs!r}')
                 return
+    # ---- explicit hydrogens added to every molecule of the reaction: atom numbers stay unique per side, molecules that shared no
+    # number before (spectator reagents vs the rest) share none afterwards, and the heavy-atom centre of the condensed graph is unchanged
+    w = rxn.copy()
+    try:
+        before_centre = set(~w.copy().center_atoms) if False else None
+    except Exception:
+        before_centre = None
+    try:
+        c0 = ~rxn
+        heavy0 = {n for n in c0.center_atoms}
+    except Exception:
+        heavy0 = None
+    try:
+        w.explicify_hydrogens()
+        ok_h = True
+    except Exception as e:
+        ok_h = False
+        rec.count(f'explicify-refused:{type(e).__name__}')
+    if ok_h:
+        side = lambda ms: [n for x in ms for n in x]
+        for name, ms in (('reactants', w.reactants), ('products', w.products), ('reagents', w.reagents)):
+            ns = side(ms)
+            if len(ns) != len(set(ns)):
+                rec.fail('explicify-numbers', f'{label}: duplicate atom numbers among the {name} after explicify_hydrogens()', sig=name)
+                return
+        g0 = set(side(rxn.reagents))
+        if not g0 & (set(side(rxn.reactants)) | set(side(rxn.products))):
+            if set(side(w.reagents)) & (set(side(w.reactants)) | set(side(w.products))):
+                rec.fail('explicify-numbers', f'{label}: after explicify_hydrogens() a reagent atom shares its number with a reactant or '
+                                              f'product atom', sig='reagent-overlap')
+                return
+        if heavy0 is not None and r_mols and p_mols:
+            try:
+                c1 = ~w
+                heavy1 = {n for n in c1.center_atoms if c1.atom(n).atomic_number != 1}
+                if heavy1 - heavy0 - {n for n in heavy1 if n not in c0._atoms}:
+                    extra = heavy1 - heavy0
+                    if any(n in g0 for n in extra):
+                        rec.fail('explicify-numbers', f'{label}: spectator reagent atoms {sorted(n for n in extra if n in g0)} enter the '
+                                                      f'reaction centre after explicify_hydrogens()', sig='reagent-centre')
+                        return
+            except Exception:
+                pass
+        rec.count('explicify-reactions')
     # ---- mutators that change the roles must leave no stale reaction-level cache: after contract_ions() / remove_reagents() on a
     # reaction whose string, hash and layout were computed before, the string must be that of a fresh reaction with the same roles
     for op in ('contract_ions', 'remove_reagents'):
